@@ -520,9 +520,14 @@ class Gen:
         fn = r.choice(["eq", "ne", "lt", "le", "gt", "ge"]) if cmp_ else r.choices(
             ["add", "sub", "mul", "truediv", "floordiv", "mod", "pow"], [6, 4, 4, 2, 1, 1, 1])[0]
         if fn == "pow":
-            # exponentiation only with a small scalar exponent: big-int powers never finish
+            # exponentiation only with a small scalar exponent (big-int powers never finish);
+            # reflected only when every base-side element is small
             rec = {"op": "binop", "out": self.new_h(), "h": c.name, "fn": "pow",
-                   "other": {"k": "s", "v": r.choice([0, 1, 2, 3])}}
+                   "other": {"k": "s", "v": V.enc(r.choice([0, 1, 2, 3, -1, 0.5, -2]))}}
+            if not c.is_table and c.vals is not None and r.random() < 0.3 and all(
+                    v is None or (isinstance(v, (int, float)) and not isinstance(v, bool) and abs(v) <= 16 and v == v) for v in c.vals):
+                rec["refl"] = True
+                rec["other"]["v"] = V.enc(r.choice([2, -2, 0.5, 3]))
             self.touch(rec["out"], c.name)
             return rec
         if c.is_table:
@@ -682,12 +687,14 @@ class Gen:
                "single": r.random() < 0.5}
         if num:
             for k in r.sample(["sum_over", "mean_over", "min_over", "max_over", "stdev_over", "count_over"], r.randint(1, 3)):
-                rec[k] = [self.colspec(c, r.choice(num), infos) for _ in range(1 if r.random() < 0.8 else 2)]
+                rec[k] = [self.colspec(c, r.choice(num), infos) for _ in range(r.choice([1, 1, 1, 2, 3]))]
         else:
             rec["count_over"] = [self.colspec(c, r.randrange(c.ncols), infos)]
         if r.random() < 0.3:
-            rec["apply"] = [{"name": r.choice(["n", "first", "a"]), "col": self.colspec(c, r.randrange(c.ncols), infos),
-                             "f": r.choice(["len", "first", "nn", "last"])}]
+            names = ["n", "first", "a", "a_sum", "a_sum2", "b_count2", "key", "key2", "col_sum2"]
+            rec["apply"] = [{"name": nm, "col": self.colspec(c, r.randrange(c.ncols), infos),
+                             "f": r.choice(["len", "first", "nn", "last"])}
+                            for nm in r.sample(names, r.choice([1, 1, 2]))]
             if self.chance("p_fault", 0.0):
                 rec["fault"] = {"at": r.randint(0, 3)}
         self.touch(rec["out"], c.name)
@@ -757,6 +764,19 @@ class Gen:
                 vals[p] = V.pick_value(r, r.choice(V.INCOMPAT.get(kd, ["str"])), 0.0)
             elif cls == "narrower":
                 vals[p] = V.pick_value(r, r.choice(V.NARROWER[kd]), 0.0)
+            # "promote early, fail late": a second special value at another position
+            if m >= 2 and cls in ("wider", "none") and r.random() < self.k.get("p_second_special", 0.3):
+                q = r.choice([i for i in range(m) if i != p])
+                t2 = r.random()
+                if t2 < 0.5:
+                    vals[q] = V.pick_value(r, r.choice(V.INCOMPAT.get(kd, ["str"])), 0.0)
+                    cls = cls + "+incompat"
+                elif t2 < 0.75 and kd in V.WIDER:
+                    vals[q] = V.pick_value(r, r.choice(V.WIDER[kd]), 0.0)
+                    cls = cls + "+wider"
+                else:
+                    vals[q] = None
+                    cls = cls + "+none"
         return vals, cls
 
     def value_spec(self, vals, scalar_ok=True):
@@ -914,7 +934,7 @@ class Gen:
                 rec["fault"] = {"at": r.randint(0, 2 * len(val["v"]) + 3)}
             elif shape == "region":
                 for x in val["v"]:
-                    x["k"] = r.choice(["fseq", "flist", "ftuple", "list"])
+                    x["k"] = r.choice(["fseq", "flist", "ftuple", "list"] if len(val["v"]) > 1 else ["flist", "ftuple", "list"])
                 if r.random() < 0.5:
                     val["outer"] = r.choice(["flist", "ftuple"])
                 rec["fault"] = {"at": r.randint(0, 6 * len(cpos) + 4)}
@@ -928,6 +948,10 @@ class Gen:
             return None
         j = r.randrange(c.ncols)
         acc = simple_accessor(c.names, j)
+        nm = c.names[j]
+        if isinstance(nm, str) and _IDENT.match(nm) and nm not in reserved() and "__" not in nm and not nm.startswith("col") \
+                and (acc is None or r.random() < 0.3):
+            acc = "%s__%d" % (nm, j)      # indexed accessor form: name__<column index>
         if acc is None:
             return None
         bad = self.chance("p_ragged", 0.0)
